@@ -347,12 +347,6 @@ func (g *jsgen) stmt(c *jctx, depth int, ind string) string {
 			if !c.sc.canLex(n) || !c.sc.canVar(n) {
 				continue
 			}
-			if !g.module && c.inClass && !c.sc.isFunc {
-				continue // block function in class (strict) code of a sloppy script: recorded finding
-			}
-			if !g.module && !c.strict && !c.sc.isFunc && c.sc.varTarget().params[n] {
-				continue // Annex B.3.3 parameter case: known finding, replayed from the fixed corpus
-			}
 			if c.sc.isFunc {
 				c.sc.addVar(n)
 			} else {
@@ -541,9 +535,6 @@ func (g *jsgen) stmt(c *jctx, depth int, ind string) string {
 			if deep {
 				continue
 			}
-			if !g.module && c.inClass {
-				continue // block function in class (strict) code of a sloppy script: recorded finding
-			}
 			n := g.name()
 			bs := newScope(c.sc, false)
 			// in sloppy mode the name may also be var-hoisted (Annex B): remember it as a var when that is possible
@@ -556,9 +547,6 @@ func (g *jsgen) stmt(c *jctx, depth int, ind string) string {
 				}
 				if !c.sc.canVar(n) {
 					continue // an enclosing block (catch parameter, let, class) binds the name: Annex B corner, recorded finding
-				}
-				if t := c.sc.varTarget(); t.params[n] {
-					continue // Annex B.3.3 parameter case: known finding, replayed from the fixed corpus
 				}
 				if c.sc.canVar(n) {
 					c.sc.addVar(n)
